@@ -2448,17 +2448,22 @@ def register_all(E):
     _old_register_all31(E); register_misc22(E)
 
 # ---- thread_local! / RefCell / Cell / Mutex / RwLock (single-threaded semantics: a run is one thread of one process)
-def _tls_init_body(e,keyname):
-    """the initialiser of the k-th thread-local key is the k-th `__rust_std_internal_init_fn` of the dump (same order)"""
-    keys=[b.name for b in e.bodies if b.kind=='const' and re.search(r':\s*(std::thread::)?LocalKey<',getattr(b,'header','') or '')]
+def _tls_initial(e,run,keyname):
+    """initial value of a thread-local key.  `const { .. }` initialisers have a constant `<KEY>::__RUST_STD_INTERNAL_INIT`; lazily
+    initialised keys have a function `__rust_std_internal_init_fn` each (the k-th lazy key owns the k-th such function of the dump)"""
+    short=keyname.split('::')[-1]
+    def has_const(n): return [b for b in e.bodies if b.kind=='const' and b.name.endswith(n.split('::')[-1]+'::__RUST_STD_INTERNAL_INIT')]
+    c=has_const(keyname)
+    if c: return e.eval_const(run,c[0])
+    keys=[b.name for b in e.bodies if b.kind=='const' and re.search(r':\s*(std::thread::)?LocalKey<',getattr(b,'header','') or '') and not has_const(b.name)]
     inits=[b for b in e.bodies if b.kind=='fn' and b.name.split('::')[-1]=='__rust_std_internal_init_fn']
     if keyname not in keys or len(inits)!=len(keys): raise Unsupported('thread_local initialiser of '+keyname)
-    return inits[keys.index(keyname)]
+    return e.call_fn(run,inits[keys.index(keyname)],[])
 def m_localkey_with(e,run,a,f):
     key=deref(a[0])
     if not (isinstance(key,Opaque) and key.kind=='LocalKey'): raise Unsupported('LocalKey::with on '+repr(key)[:60])
     st=run.ghost.setdefault('statics',{}); nm='tls:'+key.p['name']
-    if nm not in st: st[nm]=Ref(Cell(e.call_fn(run,_tls_init_body(e,key.p['name']),[])))
+    if nm not in st: st[nm]=Ref(Cell(_tls_initial(e,run,key.p['name'])))
     return e.call_value(run,a[1],[st[nm]])
 def m_localkey_try_with(e,run,a,f): return ok(m_localkey_with(e,run,a,f))
 def m_wrap_new(name):
@@ -2499,3 +2504,32 @@ def m_lazy_force(e,run,a,f):
 _old_register_all32=register_all
 def register_all(E):
     _old_register_all32(E); register_misc23(E)
+
+# ---- std::sync::atomic (single-threaded), [T]::sort_by_cached_key
+def m_atomic_new(e,run,a,f): return Agg('Atomic',[a[0]])
+def m_atomic_load(e,run,a,f): return copy_val(deref(a[0]).f[0])
+def m_atomic_store(e,run,a,f): deref(a[0]).f[0]=a[1]; return UNIT
+def m_atomic_swap(e,run,a,f):
+    c=deref(a[0]); old=c.f[0]; c.f[0]=a[1]; return old
+def m_atomic_fetch(op):
+    def m(e,run,a,f):
+        c=deref(a[0]); old=c.f[0]; c.f[0]=e.binop(op,copy_val(old),a[1]) if op in ('Add','Sub') else e.binop(op,copy_val(old),a[1]); return old
+    return m
+def m_sort_by_cached_key(e,run,a,f):
+    sl=deref(a[0]); fn=a[1]
+    if not isinstance(sl,VecO): raise Unsupported('sort_by_cached_key on '+repr(sl)[:60])
+    import functools
+    keyed=[(e.call_value(run,fn,[Ref(sl,i)]),sl.items[i]) for i in range(len(sl.items))]
+    idx=list(range(len(keyed)))
+    idx.sort(key=functools.cmp_to_key(lambda i,j: val_cmp(run,keyed[i][0],keyed[j][0])))      # stable
+    sl.items[:]=[keyed[i][1] for i in idx]
+    return UNIT
+def register_misc24(E):
+    M=E.model
+    A=r'^(std::sync::atomic::)?Atomic(Usize|Isize|U8|U16|U32|U64|I8|I16|I32|I64|Bool)?::'      # AtomicUsize = Atomic<usize> in current std
+    M(A+r'new$',m_atomic_new); M(A+r'load$',m_atomic_load); M(A+r'store$',m_atomic_store); M(A+r'swap$',m_atomic_swap)
+    M(A+r'fetch_add$',m_atomic_fetch('Add')); M(A+r'fetch_sub$',m_atomic_fetch('Sub')); M(A+r'(get_mut|as_ptr)$',m_inner_ref); M(A+r'into_inner$',lambda e,run,a,f: deref(a[0]).f[0])
+    M(r'<impl \[.*\]>::sort_by_cached_key$',m_sort_by_cached_key)
+_old_register_all33=register_all
+def register_all(E):
+    _old_register_all33(E); register_misc24(E)
